@@ -314,7 +314,7 @@ Definition c16_leaf_paths_resolve : Prop :=
   forall sch env fo ko t l q v,
     schema_ok sch -> enum_env_ok env = true -> tree_ok env fo ko drop_keys_rt sch t = true ->
     leaves env ko false sch t [] = Ok l -> In (q, v) l ->
-    get_node env ko plain_get sch t q = Ok [{| gn_path := q; gn_data := Some (lval_tree v) |}].
+    get_node env fo ko plain_get sch t q = Ok [{| gn_path := q; gn_data := Some (lval_tree v) |}].
 (* ... SetNode with the rendered value of a leaf changes nothing (keys parse back: keys_rt) ... *)
 Definition c16_reset_is_identity : Prop :=
   forall sch env fo ko t l q v tv,
@@ -328,11 +328,11 @@ Definition c16_delete_by_printed_path : Prop :=
     schema_ok sch -> enum_env_ok env = true -> tree_ok env fo ko drop_keys_rt sch t = true ->
     leaves env ko false sch t [] = Ok l -> In (q, v) l ->
     node_at sch q = Some ni -> ni_key_leaf ni = false ->
-    exists t' l', delete_node env ko false sch t q = Ok t' /\ leaves env ko false sch t' [] = Ok l' /\
+    exists t' l', delete_node env fo ko false sch t q = Ok t' /\ leaves env ko false sch t' [] = Ok l' /\
                   ~ In q (map fst l').
 Definition c16_refuted_key_leaf_delete : Prop :=
   exists sch env fo ko t q t',
-    tree_ok env fo ko strict_guard sch t = true /\ delete_node env ko false sch t q = Ok t' /\
+    tree_ok env fo ko strict_guard sch t = true /\ delete_node env fo ko false sch t q = Ok t' /\
     leaves env ko false sch t' [] = Err.
 
 (* (c) entries created by SetNode carry key leaves equal to their map key: tree_ok (which
@@ -364,7 +364,7 @@ Definition c10_get_after_set : Prop :=
     node_at sch p = Some ni -> ni_schema ni = SLeaf ty dflt -> ni_key_leaf ni = false ->
     decode_tv env ko (s_tol_json o) ty tv = Ok v ->
     set_node env fo ko o tv sch t p = Ok t' ->
-    get_node env ko plain_get sch t' p = Ok [{| gn_path := p; gn_data := Some (TLeaf v) |}].
+    get_node env fo ko plain_get sch t' p = Ok [{| gn_path := p; gn_data := Some (TLeaf v) |}].
 
 Definition c10_get_after_set_leaflist : Prop :=
   forall sch env fo ko o tvs t p t' ni ty mn mx vs,
@@ -373,7 +373,7 @@ Definition c10_get_after_set_leaflist : Prop :=
     node_at sch p = Some ni -> ni_schema ni = SLeafList ty mn mx -> tvs <> [] ->
     mapM (decode_tv env ko (s_tol_json o) ty) tvs = Ok vs ->
     set_node env fo ko o (TVLeafList tvs) sch t p = Ok t' ->
-    get_node env ko plain_get sch t' p = Ok [{| gn_path := p; gn_data := Some (TLeafList vs) |}].
+    get_node env fo ko plain_get sch t' p = Ok [{| gn_path := p; gn_data := Some (TLeafList vs) |}].
 
 (* success conditions: with InitMissingElements a type-correct scalar on a leaf path with
    parseable keys is accepted (`empty` leaves excepted) *)
@@ -421,7 +421,7 @@ Definition c10_no_panic : Prop :=
 
 (* GetNode never changes anything (it is a function of the tree) and never panics *)
 Definition c10_get_total : Prop :=
-  forall sch env ko o t p, get_node env ko o sch t p <> Panic.
+  forall sch env fo ko o t p, get_node env fo ko o sch t p <> Panic.
 
 (* ====================================================================================== *)
 (* C12 — DeleteNode                                                                       *)
@@ -431,14 +431,14 @@ Definition c12_delete_removes_subtree : Prop :=
   forall sch env fo ko t p t' ni l',
     schema_ok sch -> tree_ok env fo ko loose_guard sch t = true ->
     node_at sch p = Some ni ->
-    delete_node env ko false sch t p = Ok t' -> leaves env ko false sch t' [] = Ok l' ->
+    delete_node env fo ko false sch t p = Ok t' -> leaves env ko false sch t' [] = Ok l' ->
     forall q v a, In (q, v) l' -> In a (ni_alts ni) -> elems_prefix a q = false.
 
 Definition c12_delete_frame : Prop :=
   forall sch env fo ko t p t' ni l l',
     schema_ok sch -> tree_ok env fo ko loose_guard sch t = true ->
     node_at sch p = Some ni ->
-    delete_node env ko false sch t p = Ok t' ->
+    delete_node env fo ko false sch t p = Ok t' ->
     leaves env ko false sch t [] = Ok l -> leaves env ko false sch t' [] = Ok l' ->
     (forall q v, In (q, v) l' -> In (q, v) l) /\
     (forall q v, In (q, v) l -> (forall a, In a (ni_alts ni) -> elems_prefix a q = false) -> In (q, v) l').
@@ -446,14 +446,14 @@ Definition c12_delete_frame : Prop :=
 Definition c12_delete_idempotent : Prop :=
   forall sch env fo ko t p t',
     tree_ok env fo ko loose_guard sch t = true ->
-    delete_node env ko false sch t p = Ok t' -> delete_node env ko false sch t' p = Ok t'.
+    delete_node env fo ko false sch t p = Ok t' -> delete_node env fo ko false sch t' p = Ok t'.
 
 (* an absent node: success and the same leaves (the tree may lose containers the descent emptied) *)
 Definition c12_delete_absent_noop : Prop :=
   forall sch env fo ko t p t' l,
     tree_ok env fo ko loose_guard sch t = true ->
-    get_node env ko plain_get sch t p = Ok [] ->
-    delete_node env ko false sch t p = Ok t' ->
+    get_node env fo ko plain_get sch t p = Ok [] ->
+    delete_node env fo ko false sch t p = Ok t' ->
     leaves env ko false sch t [] = Ok l -> exists l', leaves env ko false sch t' [] = Ok l' /\ same_leaves l l'.
 
 (* a schema-valid path whose keyed elements carry all keys is never rejected *)
@@ -462,22 +462,22 @@ Definition c12_delete_succeeds : Prop :=
     schema_ok sch -> tree_ok env fo ko strict_guard sch t = true ->
     node_at sch p = Some ni -> is_keyed_list (ni_schema ni) = false \/ ekeys (last p (mk_elem [])) <> [] ->
     (exists t0, set_node env fo ko init_set TVNil sch t p = Ok t0) ->
-    exists t', delete_node env ko false sch t p = Ok t'.
+    exists t', delete_node env fo ko false sch t p = Ok t'.
 
 (* pruning: after a delete no emptied non-presence container or list entry remains on the path *)
 Definition c12_delete_total : Prop :=
-  forall sch env ko sh t p t', delete_node_st env ko sh sch t p <> (t', Panic).
+  forall sch env fo ko sh t p t', delete_node_st env fo ko sh sch t p <> (t', Panic).
 
 (* known deviations *)
 Definition c12_refuted_keyless_list_path : Prop :=   (* naming a non-empty list without keys is an error *)
   exists sch env fo ko t p ni,
     tree_ok env fo ko loose_guard sch t = true /\ node_at sch p = Some ni /\
-    is_keyed_list (ni_schema ni) = true /\ delete_node env ko false sch t p = Err.
+    is_keyed_list (ni_schema ni) = true /\ delete_node env fo ko false sch t p = Err.
 Definition c12_refuted_presence_pruned : Prop :=     (* an emptied presence container is removed too *)
-  exists sch env ko t a b t' fi ss,
+  exists sch env fo ko t a b t' fi ss,
     In (fi, ss) (sfields sch) /\ f_presence fi = true /\ f_paths fi = [[ename a]] /\
     field_get (f_go fi) (fields_of t) <> None /\
-    delete_node env ko false sch t [a; b] = Ok t' /\ field_get (f_go fi) (fields_of t') = None.
+    delete_node env fo ko false sch t [a; b] = Ok t' /\ field_get (f_go fi) (fields_of t') = None.
 
 (* ====================================================================================== *)
 (* C13 — UnmarshalSetRequest                                                              *)
@@ -485,18 +485,18 @@ Definition c12_refuted_presence_pruned : Prop :=     (* an emptied presence cont
 
 (* the reference semantics: a left fold of the operations in the order deletes, replaces,
    updates, each list in message order, every path joined to the prefix *)
-Definition apply_delete env ko sch (pre : gp) (t : tree) (p : gp) : result tree :=
-  bind (join_paths pre p) (fun jp => delete_node env ko false sch t (elems jp)).
+Definition apply_delete env fo ko sch (pre : gp) (t : tree) (p : gp) : result tree :=
+  bind (join_paths pre p) (fun jp => delete_node env fo ko false sch t (elems jp)).
 Definition apply_update env fo ko sch (pre : gp) (t : tree) (u : gp * tval) : result tree :=
   bind (join_paths pre (fst u)) (fun jp => set_node env fo ko init_set (snd u) sch t (elems jp)).
 Definition apply_replace env fo ko sch (pre : gp) (t : tree) (u : gp * tval) : result tree :=
   bind (join_paths pre (fst u)) (fun jp =>
-  bind (delete_node env ko false sch t (elems jp)) (fun t1 =>
+  bind (delete_node env fo ko false sch t (elems jp)) (fun t1 =>
         set_node env fo ko init_set (snd u) sch t1 (elems jp))).
 Fixpoint fold_res {X} (f : tree -> X -> result tree) (l : list X) (t : tree) : result tree :=
   match l with [] => Ok t | x :: r => bind (f t x) (fun t' => fold_res f r t') end.
 Definition reference_set env fo ko sch (t : tree) (r : sreq) : result tree :=
-  bind (fold_res (apply_delete env ko sch (sr_prefix r)) (sr_deletes r) t) (fun t1 =>
+  bind (fold_res (apply_delete env fo ko sch (sr_prefix r)) (sr_deletes r) t) (fun t1 =>
   bind (fold_res (apply_replace env fo ko sch (sr_prefix r)) (sr_replaces r) t1) (fun t2 =>
         fold_res (apply_update env fo ko sch (sr_prefix r)) (sr_updates r) t2)).
 
@@ -518,7 +518,7 @@ Definition c13_replace_leaf : Prop :=
     node_at sch (elems pre ++ elems p) = Some ni -> ni_schema ni = SLeaf ty dflt -> ni_key_leaf ni = false ->
     decode_tv env ko false ty tv = Ok v ->
     apply_replace env fo ko sch pre t (p, tv) = Ok t' ->
-    get_node env ko plain_get sch t' (elems pre ++ elems p) =
+    get_node env fo ko plain_get sch t' (elems pre ++ elems p) =
       Ok [{| gn_path := elems pre ++ elems p; gn_data := Some (TLeaf v) |}].
 
 (* replace with a JSON subtree: below the path only the payload's leaves remain *)
